@@ -225,7 +225,7 @@ def hyphen (s : List Char) : Option (Option BoundSet × List Char) :=
       | some r3 =>
         match partialVersion r3 with
         | none => none
-        | some (u, r4) => some (hyphenSet l.1 (hyphenUpper u), r4)
+        | some (u, r4) => some (hyphenSet (l.1.filter (·.major.isSome)) (hyphenUpper u), r4)
     | _ => none
 
 /-- `peek(alt((space1, literal("||"), eof)))` -/
